@@ -121,7 +121,7 @@ func (c *endpointClient) Dial(
 	if resp.err != nil {
 		return nil, resp.err
 	}
-	return box.receive(ctx)
+	return box.receive(ctx, c.tr.serveDone)
 }
 
 func (c *endpointClient) deliverSideConn(k *sessionKey, conn net.Conn) error {
